@@ -196,7 +196,7 @@ static void setup_argument_context(bool is_retval, struct script_context *sc_ctx
 			dllua_pushinteger(L, ++count);
 			dllua_pushstring(L, ch_str);
 			dllua_settable(L, -3);
-			data += 4;
+			data += ALIGN(spec->size, 4);
 			break;
 
 		case ARG_FMT_STRUCT:
